@@ -128,17 +128,30 @@ pub fn run(a: &Args) {
         let mut argv: Vec<String> = vec![];
         let header = if ar["header"].as_bool().unwrap() { Some(("x-vh-test".to_string(), format!("v{}", ci))) } else { None };
         if let Some((k, v)) = &header {
+            if ci % 3 == 0 {
+                // a malformed header argument (no '=') next to the well-formed one
+                argv.push("-H".into());
+                argv.push("malformed-header-argument".into());
+            }
             argv.push("-H".into());
             argv.push(format!("{}={}", k, v));
+            if ci % 5 == 0 {
+                argv.push("-H".into());
+                argv.push("x-second=2".into());
+            }
         }
         argv.push("print".into());
         if ar["nocheck"].as_bool().unwrap() {
             argv.push("-n".into());
         }
         let from_file = ar["input"].as_str().unwrap() == "file";
+        // every 23rd file session names a file that does not exist: nothing may be printed, exit status non-zero
+        let missing = from_file && ci % 23 == 7;
         let path = format!("{tmp}/doc-{ci}.bin");
         if from_file {
-            std::fs::write(&path, &doc).unwrap();
+            if !missing {
+                std::fs::write(&path, &doc).unwrap();
+            }
             argv.push("-f".into());
             argv.push(path.clone());
         }
@@ -176,7 +189,7 @@ pub fn run(a: &Args) {
             None => json!({"has": false, "s": ""}),
         };
         sink.emit(
-            &json!({"ev": "ustart", "args": {"nocheck": ar["nocheck"], "input": ar["input"], "jobname": name(&jobname), "username": name(&username),
+            &json!({"ev": "ustart", "args": {"nocheck": ar["nocheck"], "input": if missing { json!("missing") } else { ar["input"].clone() }, "jobname": name(&jobname), "username": name(&username),
             "opts": opts_j, "header": match &header { Some((k, v)) => json!({"has": true, "name": k, "value": v}), None => json!({"has": false, "name": "", "value": ""}) }},
             "target": split_uri(&target), "script": c["script"]}),
             &side,
